@@ -476,3 +476,91 @@ R("session-delete-via-helper", ["C09"],
 	c.done[k] = true
 	return true, nil
 }"""))
+
+# ------------------------------------------------------------------ C01
+M("endblock-drop-sort-lastactive", "C01", "C01.maprange",
+  ("identity/validator_set.go", """		sort.Strings(keysLA)
+
+""", """
+"""))
+M("malicious-drop-sort", "C01", "C01.maprange",
+  ("identity/validator_set_allegation.go", """	sort.Strings(addresses)
+""", ""))
+M("blockrewards-drop-sort", "C01", "C01.maprange",
+  (CTRL, """	sort.Strings(kvKeys)
+""", """	_ = sort.Strings
+"""))
+M("allegation-fix-reverted", "C01", "C01.maprange",
+  ("identity/validator_set_allegation.go", """	sort.Strings(requestIDs)
+""", ""))
+M("loadstate-fix-reverted", "C01", "C01.maprange",
+  ("data/delegation/store.go", """	sort.Slice(heights, func(i, j int) bool { return heights[i] < heights[j] })
+""", ""))
+M("rewards-write-in-map-range", "C01", "C01.maprange",
+  (CTRL, """	validatorPowerMap := make(map[string]*big.Int)""", """	validatorPowerMap := make(map[string]*big.Int)
+	defer func() {
+		for addr, pw := range validatorPowerMap {
+			_ = rewardMaster.Reward.AddToAddress(keys.Address(addr), lastHeight, balance.NewAmountFromBigInt(pw))
+		}
+	}()"""))
+M("session-iterate-ranges-map", "C01", "C01.ordered-replay",
+  ("storage/session_cache.go", """func (c *sessionCache) Iterate(fn func(key []byte, value []byte) bool) (stopped bool) {
+	for _, k := range c.keys {
+		v, ok := c.store[k]
+		if !ok {
+			continue
+		}
+		if fn([]byte(k), v) {""", """func (c *sessionCache) Iterate(fn func(key []byte, value []byte) bool) (stopped bool) {
+	for k, v := range c.store {
+		if fn([]byte(k), v) {"""))
+M("persistent-serializer-msgpack", "C01", "C01.serializer",
+  ("serialize/serialize.go", """	case PERSISTENT:
+		return &jsonStrategy{}""", """	case PERSISTENT:
+		return &msgpackStrategy{}"""))
+M("validator-record-wall-clock", "C01", "C01.nodelocal",
+  ("identity/validator_set.go", """	vs.lastHeight = req.Header.GetHeight()
+	createdTime := req.Header.GetTime()""", """	vs.lastHeight = req.Header.GetHeight()
+	createdTime := req.Header.GetTime()
+	if createdTime.IsZero() {
+		createdTime = time.Now()
+	}"""))
+M("tracker-set-inside-witness-branch", "C01", "C01.nodelocal.region",
+  ("event/eth_lock_transitions.go", """	if tracker.Finalized() {
+		tracker.State = ethereum.Finalized
+		return nil
+	}
+
+	if context.Witnesses.IsETHWitness() {""", """	if tracker.Finalized() {
+		tracker.State = ethereum.Finalized
+		return nil
+	}
+
+	if context.Witnesses.IsETHWitness() {
+		if err := context.TrackerStore.WithPrefixType(ethereum.PrefixOngoing).Set(tracker); err != nil {
+			context.Logger.Error("failed to checkpoint tracker", err)
+		}"""))
+M("expire-needs-own-validator-active", "C01", "C01.nodelocal.region",
+  ("action/governance/expireVotes.go", """	//Get proposal from active prefix
+	proposal, err := ctx.ProposalMasterStore.Proposal.WithPrefixType(active).Get(expireVotes.ProposalID)""",
+   """	if !ctx.Validators.IsValidatorAddress(expireVotes.ValidatorAddress) {
+		return false, action.Response{}
+	}
+	//Get proposal from active prefix
+	proposal, err := ctx.ProposalMasterStore.Proposal.WithPrefixType(active).Get(expireVotes.ProposalID)"""))
+R("malicious-sort-slice-on-keys", ["C01"],
+  ("identity/validator_set_allegation.go", """	sort.Strings(addresses)
+""", """	sort.Slice(addresses, func(i, j int) bool { return addresses[i] < addresses[j] })
+"""))
+R("blockrewards-sorted-helper-loop", ["C01"],
+  (CTRL, """	kvKeys := make([]string, 0, len(kvMap))
+	for k := range kvMap {
+		kvKeys = append(kvKeys, k)
+	}
+	sort.Strings(kvKeys)""", """	kvKeys := []string{}
+	for k, pair := range kvMap {
+		if len(pair.Key) == 0 {
+			continue
+		}
+		kvKeys = append(kvKeys, k)
+	}
+	sort.Strings(kvKeys)"""))
